@@ -1789,7 +1789,7 @@ class Executor:
         return [(st, ret)]
 
     # ================================================================ entry points
-    def run_entry(self, rec, subst=None, args=None, arg_names=None, assume=None):
+    def run_entry(self, rec, subst=None, args=None, arg_names=None, assume=None, init_mem=None):
         """symbolically execute body `rec` from a fresh state. args: optional list of values
         (None entries are replaced by symbols named after the parameter)."""
         self.terminated = []
@@ -1815,6 +1815,8 @@ class Executor:
                 nm = (arg_names or {}).get(i) or names.get(i) or "arg%d" % i
                 v = self.mk_sym(self.normalize(self.local_ty(fr, i)), nm)
             st.mem[("L", fr.fid, i)] = v
+        for r, v in (init_mem or {}).items():
+            st.mem[r] = v
         for q in (assume or []):
             st.facts.add_fact_ge0(q)
         outs, _ = self.run_blocks(fr, {0: [st]})
